@@ -2,6 +2,7 @@
    The theorems quantify over every schedule (list of scheduler choices) of the lock-level model Locks.v. *)
 From Coq Require Import String.
 From SF Require Import Bytes Locks LocksProofs LocksAgree.
+From SFX Require Import Extracted.
 Open Scope N_scope.
 
 (* no deadlock: in every reachable state either every thread has finished or some thread can take a step *)
@@ -52,3 +53,8 @@ Theorem C16_source_lock_order :
   x_seqs = [("get_symbol_for"%string, Some SEQ_GET_SYMBOL, false); ("new_internal"%string, Some SEQ_NEW_INTERNAL, false)]
   /\ acyclic x_lk_seqs = true /\ no_reacquire x_lk_seqs = true.
 Proof. exact (conj x_lock_sequences_agree x_lock_order_acyclic). Qed.
+
+(* the thread-safety contract the theorems above are used under: a connection is shareable between threads (Sync)
+   only if the interface is Sync, sendable only if it is Send (as the source states it on this run) *)
+Theorem C16_source_send_sync_bounds : x_conn_sync_requires = "Sync"%string /\ x_conn_send_requires = "Send"%string.
+Proof. exact x_conn_bounds. Qed.
